@@ -807,6 +807,8 @@ def locked_census(chk, F, rule, config, allow, floor):
                 recv_field = names[-1] if names else show(a0)
                 if f.kind == 'closure' and field_path(a0)[0] == ('param', 0, 1) and len(names) == 1:
                     recv_field = 'captured'      # (a lock the closure captured, whatever the variable is called)
+                if not names and (f.impl_of or {}).get('self_adt') in getattr(F, 'transparent', ()):
+                    recv_field = 'captured'      # (the lock is the single field of a wrapper type that does not exist on the reference tree)
                 c = strip(a1)
                 if c[0] == 'agg' and c[1] == 'closure':
                     closure = c[2]
